@@ -32,10 +32,15 @@ def run(tier):
             c = cc.Case()
             c.sc, c.profile, c.mode, c.seed = sc, prof, ("loop" if i % 2 else "dispatch"), s
             cases.append(c)
+        # module names sharing one probe chain of the context's module table: teardown module by module and as a whole
+        for k in range((24 if tier == "quick" else 600) if variant == "plain" else 8):
+            c = cc.Case()
+            c.sc, c.profile, c.mode, c.seed = gen.gen_colliding_modules(seed * 1000 + k), "colliding_modules", ("loop" if k % 2 else "dispatch"), seed * 1000 + k
+            cases.append(c)
 
         def oracle(case):
             v = model_ctx.check_c07(case, stats)
-            if case.profile == "ctx_lifecycle":
+            if case.profile in ("ctx_lifecycle", "colliding_modules"):
                 # teardown must stop running modules through their stop callback exactly once: C01's pairing clause
                 v += [("C07/" + k.split("/", 1)[1], d) for k, d in model_lifecycle.check(case, None) if "stop-callback" in k or "stopped-without" in k]
             return v
